@@ -317,3 +317,151 @@ class WOFF2DirectoryEntryRoundTrip(Contract):
             eq(r[1].length, Ite(Not(eq(a._ver, 3)) if a._tag in ("glyf", "loca") else Not(eq(a._ver, 0)), a.self.length, a.self.origLength)),
             len(r[2]) == 0)),
     ]
+
+
+# -- the glyf-transform point 'triplet' codec (C15, C04) -----------------------------------------
+
+class _Coords:
+    """the few GlyphCoordinates operations the triplet codec uses, over a plain list (the
+    real class stores C doubles); absoluteToRelative is the running difference"""
+
+    def __init__(self, pts):
+        self.pts = list(pts)
+
+    @classmethod
+    def zeros(cls, n):
+        return cls([(0, 0)] * n)
+
+    def copy(self):
+        return _Coords(self.pts)
+
+    def absoluteToRelative(self):
+        out, px, py = [], 0, 0
+        for x, y in self.pts:
+            out.append((x - px, y - py))
+            px, py = x, y
+        self.pts = out
+
+    def __len__(self):
+        return len(self.pts)
+
+    def __iter__(self):
+        return iter(self.pts)
+
+    def __setitem__(self, i, v):
+        self.pts[i] = v
+
+    def __getitem__(self, i):
+        return self.pts[i]
+
+
+def spec_triplet(flag, bs):
+    """W3C WOFF2 5.2 'triplet encoding' table, transcribed: (number of bytes, dx, dy) of a
+    point whose 7 low flag bits are `flag` and whose following bytes are bs[0..3]"""
+    def sgn(bit_set, v):
+        return Ite(bit_set, v, -v)
+    xpos = eq(flag % 2, 1)
+    ypos = eq((flag // 2) % 2, 1)
+    b0, b1, b2, b3 = bs
+    # flag < 10: dx = 0, dy from byte 0 + 256 * (flag // 2); sign is bit 0
+    r = (4, sgn(xpos, b0 * 256 + b1), sgn(ypos, b2 * 256 + b3))
+    r = tuple(Ite(flag < 124, v, w) for v, w in zip((3, sgn(xpos, b0 * 16 + b1 // 16), sgn(ypos, (b1 % 16) * 256 + b2)), r))
+    f2 = flag - 84
+    r = tuple(Ite(flag < 120, v, w) for v, w in zip((2, sgn(xpos, 1 + (f2 // 12) * 256 + b0), sgn(ypos, 1 + ((f2 % 12) // 4) * 256 + b1)), r))
+    f1 = flag - 20
+    r = tuple(Ite(flag < 84, v, w) for v, w in zip((1, sgn(xpos, 1 + (f1 // 16) * 16 + b0 // 16), sgn(ypos, 1 + ((f1 % 16) // 4) * 16 + b0 % 16)), r))
+    r = tuple(Ite(flag < 20, v, w) for v, w in zip((1, sgn(xpos, ((flag - 10) // 2) * 256 + b0), 0), r))
+    r = tuple(Ite(flag < 10, v, w) for v, w in zip((1, 0, sgn(xpos, (flag // 2) * 256 + b0)), r))
+    return r
+
+
+@contract
+class TripletEncode(Contract):
+    """WOFF2GlyfTable._encodeTriplets for a point with EVERY delta (dx, dy) in -65535..65535 and
+    either on/off-curve flag: one flag byte (bit 7 = off-curve), and the flag with its
+    following bytes decodes - by the W3C triplet table - to exactly the delta, consuming
+    exactly the bytes written.  (Deltas between successive points are GlyphCoordinates'
+    absoluteToRelative, stubbed here by the running difference.)"""
+    module = "fontTools.ttLib.woff2"
+    qualname = "WOFF2GlyfTable._encodeTriplets"
+    props = ("C15", "C04")
+    rebind = staticmethod(lambda: std("struct", "len", "bytes", "array"))
+    level = "P"
+    variants = ("one-point",)
+    deadline_s = 600
+
+    def args(self, S, variant):
+        n = 1
+        d = [(S.int("dx%d" % i, -65535, 65535), S.int("dy%d" % i, -65535, 65535)) for i in range(n)]
+        pts, x, y = [], 0, 0
+        for dx, dy in d:
+            x, y = x + dx, y + dy
+            pts.append((x, y))
+
+        class _G:
+            pass
+        g = _G()
+        g.coordinates = _Coords(pts)
+        g.flags = [S.int("on%d" % i, 0, 1) for i in range(n)]
+        t = self.mod.WOFF2GlyfTable.__new__(self.mod.WOFF2GlyfTable)
+        t.flagStream, t.glyphStream = b"", b""
+        return dict(self=t, glyph=g, _d=d, _n=n)
+
+    def call(self, f, a):
+        f(a.self, a.glyph)
+        return a.self.flagStream, a.self.glyphStream
+
+    @staticmethod
+    def _post(a, r):
+        fl, tr = _items(r[0]), _items(r[1])
+        if len(fl) != 1 or not 1 <= len(tr) <= 4:
+            return False
+        bs = (tr + [0, 0, 0])[:4]
+        nb, dx, dy = spec_triplet(fl[0] % 128, bs)
+        return And(eq(fl[0] // 128, 1 - a.glyph.flags[0]), eq(nb, len(tr)), eq(dx, a._d[0][0]), eq(dy, a._d[0][1]))
+
+    ensures = [prop("flag-and-bytes-decode-to-the-delta-per-W3C-table", lambda a, old, r: TripletEncode._post(a, r))]
+
+
+@contract
+class TripletDecode(Contract):
+    """WOFF2GlyfTable._decodeTriplets for one point, EVERY flag byte and every following
+    bytes: the point is the W3C table's (dx, dy), on-curve iff bit 7 is clear, and exactly the
+    table's number of bytes (and one flag) are consumed from the streams."""
+    module = "fontTools.ttLib.woff2"
+    qualname = "WOFF2GlyfTable._decodeTriplets"
+    props = ("C15", "C04")
+    rebind = staticmethod(lambda: dict(std("struct", "len", "bytes", "array", "int"), getTableModule=lambda tag: _GlyfModule))
+    level = "P"
+    variants = (4, 5)          # bytes available in the glyph stream (one point never needs more than 4)
+
+    def args(self, S, variant):
+        class _G:
+            pass
+        g = _G()
+        g.endPtsOfContours = [0]
+        t = self.mod.WOFF2GlyfTable.__new__(self.mod.WOFF2GlyfTable)
+        t.flagStream = S.bytes("flags", 2)
+        t.glyphStream = S.bytes("stream", variant)
+        return dict(self=t, glyph=g, _flags=t.flagStream, _stream=t.glyphStream)
+
+    def call(self, f, a):
+        f(a.self, a.glyph)
+        return a.glyph.coordinates.pts, list(a.glyph.flags), a.self.flagStream, a.self.glyphStream
+
+    @staticmethod
+    def _post(a, r):
+        pts, flags, frest, srest = r
+        fl, bs = _items(a._flags), _items(a._stream)
+        nb, dx, dy = spec_triplet(fl[0] % 128, bs[:4])
+        if len(pts) != 1 or len(flags) != 1:
+            return False
+        return And(eq(pts[0][0], dx), eq(pts[0][1], dy), eq(flags[0], 1 - fl[0] // 128),
+                   frest == a._flags[1:], eq(len(_items(srest)), len(bs) - nb),
+                   *[Implies(eq(nb, k), srest == a._stream[k:]) for k in (1, 2, 3, 4)])
+
+    ensures = [prop("point-and-consumption-per-W3C-table", lambda a, old, r: TripletDecode._post(a, r))]
+
+
+class _GlyfModule:
+    GlyphCoordinates = _Coords
